@@ -217,6 +217,14 @@ def replay(rec, ctx):
         ax = populate(root, c)
         adas = OpenADAS(data_path=root, permit_extrapolation=c["extrap"], missing_rates_return_null=c["null"],
                         wavelength_element_fallback=c["fallback"])
+        if c.get("before", "none") == "other_kind":
+            # Provider.tla before = "other_kind": the same provider is asked for the other species kind first (result ignored)
+            try:
+                r0 = call(adas, dict(c, species="isotope" if c["species"] == "element" else "element"))
+                for r_ in (r0 if isinstance(r0, list) else [r0]):
+                    r_(*arg_points({"arg": ["grid"]}, ax, axes)[0][0])
+            except Exception:                    # noqa: BLE001
+                pass
         try:
             rate = call(adas, c)
         except Exception as ex:                  # noqa: BLE001
@@ -292,6 +300,7 @@ INVARIANT IsotopeUsesElementRates
 INVARIANT ExtrapOnlyOutside
 INVARIANT DropIrrelevant
 INVARIANT LatticeIrrelevant
+INVARIANT BeforeIrrelevant
 INVARIANT Species2Irrelevant
 INVARIANT EmitCase
 """
@@ -316,7 +325,7 @@ def run(v):
         # seed-stable thinning of the flag combinations for argument classes that do not depend on them
         import random
         rng = random.Random(v.seed)
-        keep = [r for r in cases if r["case"]["arg"][0] in ("grid", "nonpos") or not r["case"]["present"] or r["case"].get("drop", "none") != "none" or r["case"].get("species2") == "other" or r["case"].get("lattice", "decades") != "decades" or rng.random() < 0.5]
+        keep = [r for r in cases if r["case"]["arg"][0] in ("grid", "nonpos") or not r["case"]["present"] or r["case"].get("drop", "none") != "none" or r["case"].get("species2") == "other" or r["case"].get("lattice", "decades") != "decades" or r["case"].get("before", "none") != "none" or rng.random() < 0.5]
         if sum(1 for r in keep if r["case"].get("drop", "none") != "none") < 60:
             raise core.MachineryError("vacuity: sharp-drop tables missing")
         cases = keep
